@@ -1254,6 +1254,264 @@ theorem instr_step (ns : NumSem) (hns : NumOK ns) (hmo : MemOK ns) (ctx : Ctx) (
         | ub => trivial
         | oof => trivial
   | dataDrop seg => stuck_case
+  | atomicLoad o off =>
+    rw [compileInstr] at hc
+    cases hfn : atomicFnK "load" o with
+    | none => simp [hfn, bind, Except.bind] at hc
+    | some frt =>
+    obtain ⟨fn, ort⟩ := frt
+    cases ort with
+    | none => simp [hfn, bind, Except.bind] at hc
+    | some rt =>
+    cases h0 : st.top 0 with
+    | none => simp [hfn, h0, bind, Except.bind] at hc
+    | some s0 =>
+      simp only [hfn, h0, bind, Except.bind] at hc
+      split at hc
+      · cases hc
+      · rename_i hcond
+        injection hc with hc; simp only [Prod.mk.injEq] at hc
+        obtain ⟨rfl, rfl, rfl⟩ := hc
+        refine ⟨by simp, ?_⟩
+        rw [erunInstr, erunRmw]
+        obtain ⟨x01, x02, x03⟩ := hr.top h0
+        simp only [Nat.sub_zero] at x02 x03
+        have hge : st.base + 1 ≤ st.stack.length := by simp [St.height] at hcond; omega
+        have hlen := hr.length
+        have hnlt : ¬ stk.length < 0 + 1 := by omega
+        have hdrop : stk.drop (stk.length - 0) = [] := by simp
+        simp only [hnlt, if_false, List.getD_eq_getElem?_getD, x03, Option.getD_some, hdrop]
+        have hex : execOut ns (f + 1) [MStmtC.rmw (some ⟨rt, s0.idx⟩) fn s0 off []] σ =
+            (match ns.rmwT fn σ.store.g.mem ((σ.get s0).bits + off) ([].map σ.get) with
+             | .val r =>
+               (match ((some ⟨rt, s0.idx⟩) : Option Slot), r.1 with
+                | some d, some v => MRes.normal (({ σ with store := { σ.store with g := { σ.store.g with mem := r.2 } } } : MSt).set d v)
+                | none, none => .normal { σ with store := { σ.store with g := { σ.store.g with mem := r.2 } } }
+                | _, _ => .stuck)
+             | .trap t => .trap t | .oof => .oof | _ => .stuck) := rfl
+        rw [hex, hl]
+        simp only [List.map_cons, List.map_nil]
+        cases hss : ns.rmwS o loc.g.mem ((σ.get s0).bits + off) [] with
+        | val r =>
+          obtain ⟨hT, hsome, _⟩ := hmo.atomRef "load" o fn (some rt) _ _ _ r hfn hss
+          obtain ⟨v, hv1, hv2⟩ := hsome rt rfl
+          rw [hT]
+          obtain ⟨rv, m'⟩ := r
+          simp only at hv1; subst hv1
+          simp only []
+          subst hl
+          have hstack : (((st.declare ⟨rt, s0.idx⟩).drop 1).push rt).stack = st.stack.take (st.stack.length - 1) ++ [rt] := by simp [St.push, St.drop, St.declare]
+          refine simres_pop_push_st hw hr 1 hge rt v hv2 { σ.store with g := { σ.store.g with mem := m' } } ⟨hlt.len, hlt.typed, hlt.glob⟩ hwf' rfl rfl hstack ?_
+          rw [x02, hlen]
+        | trap t => rw [hmo.atomTrap "load" o fn _ _ _ _ t hfn hss]; rfl
+        | ub => trivial
+        | oof => trivial
+  | atomicStore o off =>
+    rw [compileInstr] at hc
+    cases hfn : atomicFnK "store" o with
+    | none => simp [hfn, bind, Except.bind] at hc
+    | some frt =>
+    obtain ⟨fn, ort⟩ := frt
+    cases ort with
+    | some rt => simp [hfn, bind, Except.bind] at hc
+    | none =>
+    cases h0 : st.top 0 with
+    | none => simp [hfn, h0, bind, Except.bind] at hc
+    | some s0 =>
+    cases h1 : st.top 1 with
+    | none => simp [hfn, h0, h1, bind, Except.bind] at hc
+    | some s1 =>
+      simp only [hfn, h0, h1, bind, Except.bind] at hc
+      split at hc
+      · cases hc
+      · rename_i hcond
+        injection hc with hc; simp only [Prod.mk.injEq] at hc
+        obtain ⟨rfl, rfl, rfl⟩ := hc
+        refine ⟨by simp, ?_⟩
+        rw [erunInstr, erunRmw]
+        obtain ⟨x01, x02, x03⟩ := hr.top h0
+        obtain ⟨x11, x12, x13⟩ := hr.top h1
+        simp only [Nat.sub_zero] at x02 x03
+        have e1 : stk.length - 1 - 1 = stk.length - 2 := by omega
+        rw [e1] at x12 x13
+        have hge : st.base + 2 ≤ st.stack.length := by simp [St.height] at hcond; omega
+        have hlen := hr.length
+        have hnlt : ¬ stk.length < 1 + 1 := by omega
+        have hdrop : stk.drop (stk.length - 1) = [σ.get s0] := by
+          apply List.ext_getElem?; intro i
+          rw [List.getElem?_drop]
+          cases i with
+          | zero => simpa using x03
+          | succ j => simp; omega
+        simp only [hnlt, if_false, List.getD_eq_getElem?_getD, x13, Option.getD_some, hdrop]
+        have hex : execOut ns (f + 1) [MStmtC.rmw none fn s1 off [s0]] σ =
+            (match ns.rmwT fn σ.store.g.mem ((σ.get s1).bits + off) ([s0].map σ.get) with
+             | .val r =>
+               (match (none : Option Slot), r.1 with
+                | some d, some v => MRes.normal (({ σ with store := { σ.store with g := { σ.store.g with mem := r.2 } } } : MSt).set d v)
+                | none, none => .normal { σ with store := { σ.store with g := { σ.store.g with mem := r.2 } } }
+                | _, _ => .stuck)
+             | .trap t => .trap t | .oof => .oof | _ => .stuck) := rfl
+        rw [hex, hl]
+        simp only [List.map_cons, List.map_nil]
+        cases hss : ns.rmwS o loc.g.mem ((σ.get s1).bits + off) [σ.get s0] with
+        | val r =>
+          obtain ⟨hT, _, hnone⟩ := hmo.atomRef "store" o fn none _ _ _ r hfn hss
+          rw [hT]
+          obtain ⟨rv, m'⟩ := r
+          have := hnone rfl
+          simp only at this; subst this
+          simp only []
+          subst hl
+          exact simres_pop_st hw hr 2 hge { σ.store with g := { σ.store.g with mem := m' } } ⟨hlt.len, hlt.typed, hlt.glob⟩ hwf' rfl rfl rfl rfl
+        | trap t => rw [hmo.atomTrap "store" o fn _ _ _ _ t hfn hss]; rfl
+        | ub => trivial
+        | oof => trivial
+  | atomicRmw o off =>
+    rw [compileInstr] at hc
+    cases hfn : atomicFnK "rmw" o with
+    | none => simp [hfn, bind, Except.bind] at hc
+    | some frt =>
+    obtain ⟨fn, ort⟩ := frt
+    cases ort with
+    | none => simp [hfn, bind, Except.bind] at hc
+    | some rt =>
+    cases h0 : st.top 0 with
+    | none => simp [hfn, h0, bind, Except.bind] at hc
+    | some s0 =>
+    cases h1 : st.top 1 with
+    | none => simp [hfn, h0, h1, bind, Except.bind] at hc
+    | some s1 =>
+      simp only [hfn, h0, h1, bind, Except.bind] at hc
+      split at hc
+      · cases hc
+      · rename_i hcond
+        injection hc with hc; simp only [Prod.mk.injEq] at hc
+        obtain ⟨rfl, rfl, rfl⟩ := hc
+        refine ⟨by simp, ?_⟩
+        rw [erunInstr, erunRmw]
+        obtain ⟨x01, x02, x03⟩ := hr.top h0
+        obtain ⟨x11, x12, x13⟩ := hr.top h1
+        simp only [Nat.sub_zero] at x02 x03
+        have e1 : stk.length - 1 - 1 = stk.length - 2 := by omega
+        rw [e1] at x12 x13
+        have hge : st.base + 2 ≤ st.stack.length := by simp [St.height] at hcond; omega
+        have hlen := hr.length
+        have hnlt : ¬ stk.length < 1 + 1 := by omega
+        have hdrop : stk.drop (stk.length - 1) = [σ.get s0] := by
+          apply List.ext_getElem?; intro i
+          rw [List.getElem?_drop]
+          cases i with
+          | zero => simpa using x03
+          | succ j => simp; omega
+        simp only [hnlt, if_false, List.getD_eq_getElem?_getD, x13, Option.getD_some, hdrop]
+        have hex : execOut ns (f + 1) [MStmtC.rmw (some ⟨rt, s1.idx⟩) fn s1 off [s0]] σ =
+            (match ns.rmwT fn σ.store.g.mem ((σ.get s1).bits + off) ([s0].map σ.get) with
+             | .val r =>
+               (match ((some ⟨rt, s1.idx⟩) : Option Slot), r.1 with
+                | some d, some v => MRes.normal (({ σ with store := { σ.store with g := { σ.store.g with mem := r.2 } } } : MSt).set d v)
+                | none, none => .normal { σ with store := { σ.store with g := { σ.store.g with mem := r.2 } } }
+                | _, _ => .stuck)
+             | .trap t => .trap t | .oof => .oof | _ => .stuck) := rfl
+        rw [hex, hl]
+        simp only [List.map_cons, List.map_nil]
+        cases hss : ns.rmwS o loc.g.mem ((σ.get s1).bits + off) [σ.get s0] with
+        | val r =>
+          obtain ⟨hT, hsome, _⟩ := hmo.atomRef "rmw" o fn (some rt) _ _ _ r hfn hss
+          obtain ⟨v, hv1, hv2⟩ := hsome rt rfl
+          rw [hT]
+          obtain ⟨rv, m'⟩ := r
+          simp only at hv1; subst hv1
+          simp only []
+          subst hl
+          have hstack : (((st.declare ⟨rt, s1.idx⟩).drop 2).push rt).stack = st.stack.take (st.stack.length - 2) ++ [rt] := by simp [St.push, St.drop, St.declare]
+          refine simres_pop_push_st hw hr 2 hge rt v hv2 { σ.store with g := { σ.store.g with mem := m' } } ⟨hlt.len, hlt.typed, hlt.glob⟩ hwf' rfl rfl hstack ?_
+          rw [x12, hlen]
+        | trap t => rw [hmo.atomTrap "rmw" o fn _ _ _ _ t hfn hss]; rfl
+        | ub => trivial
+        | oof => trivial
+  | atomicCmpxchg o off =>
+    rw [compileInstr] at hc
+    cases hfn : atomicFnK "cmpxchg" o with
+    | none => simp [hfn, bind, Except.bind] at hc
+    | some frt =>
+    obtain ⟨fn, ort⟩ := frt
+    cases ort with
+    | none => simp [hfn, bind, Except.bind] at hc
+    | some rt =>
+    cases h0 : st.top 0 with
+    | none => simp [hfn, h0, bind, Except.bind] at hc
+    | some s0 =>
+    cases h1 : st.top 1 with
+    | none => simp [hfn, h0, h1, bind, Except.bind] at hc
+    | some s1 =>
+    cases h2 : st.top 2 with
+    | none => simp [hfn, h0, h1, h2, bind, Except.bind] at hc
+    | some s2 =>
+      simp only [hfn, h0, h1, h2, bind, Except.bind] at hc
+      split at hc
+      · cases hc
+      · rename_i hcond
+        injection hc with hc; simp only [Prod.mk.injEq] at hc
+        obtain ⟨rfl, rfl, rfl⟩ := hc
+        refine ⟨by simp, ?_⟩
+        rw [erunInstr, erunRmw]
+        obtain ⟨x01, x02, x03⟩ := hr.top h0
+        obtain ⟨x11, x12, x13⟩ := hr.top h1
+        obtain ⟨x21, x22, x23⟩ := hr.top h2
+        simp only [Nat.sub_zero] at x02 x03
+        have e1 : stk.length - 1 - 1 = stk.length - 2 := by omega
+        rw [e1] at x12 x13
+        have e2 : stk.length - 1 - 2 = stk.length - 3 := by omega
+        rw [e2] at x22 x23
+        have hge : st.base + 3 ≤ st.stack.length := by simp [St.height] at hcond; omega
+        have hlen := hr.length
+        have hnlt : ¬ stk.length < 2 + 1 := by omega
+        have hdrop : stk.drop (stk.length - 2) = [σ.get s1, σ.get s0] := by
+          apply List.ext_getElem?; intro i
+          rw [List.getElem?_drop]
+          cases i with
+          | zero => simpa using x13
+          | succ j =>
+            cases j with
+            | zero =>
+              have e : stk.length - 2 + (0 + 1) = stk.length - 1 := by omega
+              rw [e]; simpa using x03
+            | succ k => simp; omega
+        simp only [hnlt, if_false, List.getD_eq_getElem?_getD, x23, Option.getD_some, hdrop]
+        have hex : execOut ns (f + 1) [MStmtC.rmw (some ⟨rt, s2.idx⟩) fn s2 off [s1, s0]] σ =
+            (match ns.rmwT fn σ.store.g.mem ((σ.get s2).bits + off) ([s1, s0].map σ.get) with
+             | .val r =>
+               (match ((some ⟨rt, s2.idx⟩) : Option Slot), r.1 with
+                | some d, some v => MRes.normal (({ σ with store := { σ.store with g := { σ.store.g with mem := r.2 } } } : MSt).set d v)
+                | none, none => .normal { σ with store := { σ.store with g := { σ.store.g with mem := r.2 } } }
+                | _, _ => .stuck)
+             | .trap t => .trap t | .oof => .oof | _ => .stuck) := rfl
+        rw [hex, hl]
+        simp only [List.map_cons, List.map_nil]
+        cases hss : ns.rmwS o loc.g.mem ((σ.get s2).bits + off) [σ.get s1, σ.get s0] with
+        | val r =>
+          obtain ⟨hT, hsome, _⟩ := hmo.atomRef "cmpxchg" o fn (some rt) _ _ _ r hfn hss
+          obtain ⟨v, hv1, hv2⟩ := hsome rt rfl
+          rw [hT]
+          obtain ⟨rv, m'⟩ := r
+          simp only at hv1; subst hv1
+          simp only []
+          subst hl
+          have hstack : (((st.declare ⟨rt, s2.idx⟩).drop 3).push rt).stack = st.stack.take (st.stack.length - 3) ++ [rt] := by simp [St.push, St.drop, St.declare]
+          refine simres_pop_push_st hw hr 3 hge rt v hv2 { σ.store with g := { σ.store.g with mem := m' } } ⟨hlt.len, hlt.typed, hlt.glob⟩ hwf' rfl rfl hstack ?_
+          rw [x22, hlen]
+        | trap t => rw [hmo.atomTrap "cmpxchg" o fn _ _ _ _ t hfn hss]; rfl
+        | ub => trivial
+        | oof => trivial
+  | atomicFence =>
+    simp [compileInstr] at hc
+    obtain ⟨rfl, rfl, rfl⟩ := hc
+    refine ⟨by simp, ?_⟩
+    rw [erunInstr]
+    exact simres_normal_intro rfl hw rfl (Nat.le_refl _) hlt σ rfl hr hl (SlotsBelow.refl _ _) rfl
+  | atomicNotify off => stuck_case
+  | atomicWait b off => stuck_case
   | call fn =>
     rw [compileInstr] at hc
     cases hti : ctx.funcTypeIdx[fn]? with
